@@ -39,11 +39,13 @@ def axis_family_waves(n, lazy=False):
 def crop_event(c, lazy=False):
     nx, ny = c["n"]
     ev = {"k": "crop", "case": c, "lazy": lazy, "raised": False, "n": [nx, ny], "n2": [0, 0], "shifted": bool(c["shifted"]), "parity": c["parity"],
-          "full": c["angle"] == "full", "maps": [[], []]}
+          "full": c["angle"] == "full", "maps": [[], []], "beyond_grid": c["angle"] in ("edge", "beyond")}
     try:
         w = axis_family_waves((nx, ny), lazy)
         full_angle = min(nx // 2, ny // 2) * DELTA
-        ang = {"full": "full", "cutoff": "cutoff", "valid": "valid", "a": 0.55 * full_angle, "b": 0.3 * full_angle}[c["angle"]]
+        ang = {"full": "full", "cutoff": "cutoff", "valid": "valid", "a": 0.55 * full_angle, "b": 0.3 * full_angle,
+               # a requested range that reaches the edge of the grid (within a pixel of the largest angle) or lies beyond it
+               "edge": 0.97 * full_angle, "beyond": 1.3 * full_angle}[c["angle"]]
         dp = w.diffraction_patterns(max_angle=ang, parity=c["parity"], fftshift=bool(c["shifted"]))
         if lazy:
             dp = dp.compute()
